@@ -449,9 +449,9 @@ Spec == Init /\ [][Next]_vars
 
 (* ------------------------------ B => A ------------------------------ *)
 
-\* the contract speaks about graphs declared with module_depends() and module_antidepends() (consistently, see
-\* ModLoadContract!Consistent); module_is_backend() is outside it
-InContract == Consistent(cs) /\ \A m \in Mods : m \notin cs.backend
+\* the contract speaks about graphs declared with module_depends() and module_antidepends(); module_is_backend() is
+\* outside it
+InContract == \A m \in Mods : m \notin cs.backend
 
 AtExit(name) == (phase = "exited" /\ InContract) => Holds(name, cs, log, status)
 
